@@ -1,5 +1,6 @@
 import Kaira.Proto
 import Kaira.Modem
+import Kaira.ModemMem
 namespace Kaira.Verbs
 open Kaira Kaira.Proto Kaira.Modem
 
@@ -36,6 +37,19 @@ def cmod (ts : Tables) (toks : List String) : Option String :=
     match modulate t (mode = "label") bits with
     | some idx => some (showNats idx)
     | none => some "reject"
+  | ["rtml", t, mode, bits] => do
+    let t ← findTable ts t; let bits ← bits? bits
+    some (match rtMemoryless t (mode = "label") bits with | some o => showBits o | none => "reject")
+  | ["rtdiff", t, bits] => do
+    let t ← findTable ts t; let bits ← bits? bits
+    some (match rtDifferential t bits with | some o => showBits o | none => "reject")
+  | ["rtalt", a, b, c, d, bits] => do
+    let a ← findTable ts a; let b ← findTable ts b; let c ← findTable ts c; let d ← findTable ts d
+    let bits ← bits? bits
+    some (match rtAlternating a b c d bits with | some o => showBits o | none => "reject")
+  | ["rtoq", bits] => do
+    let bits ← bits? bits
+    some (match rtOffset bits with | some o => showBits o | none => "reject")
   | ["hard", t, ys] => do
     let t ← findTable ts t
     let ys ← (ys.splitOn ";").mapM xy?
